@@ -15,6 +15,17 @@ CLAIMED = {
             'evaluated directly on the implementation (oracle) to find failing inputs.',
             'Trusted: Coq kernel + vm_compute, PrimFloat primitives, gen_constants.py, the scripted-model harness. Modelled not verified: '
             'oracles (_evaluate, hooks) touch only variable values; t inside the span.', 'DESIGN.md §3 C02'),
+    'C19': ('Coq proof over an executable model of the tabular glue (export, import, symbol tables) + differential correspondence through an extracted OCaml driver',
+            'Theorems C19_* (Props/C19.v, 27, all closed under the global context): export shape (one row per period, columns in model order, '
+            'underscore filter on the first character, status/iterations iff requested), cell and dtype fidelity, linker tables, '
+            'from_dataframe∘to_dataframe round trips and the symbols round trip hold for all models, flags and symbol lists under explicit '
+            'guards shown satisfiable; guard-excluded cases are refuted by vm_compute witnesses. The model is tied to fsic/tools.py, '
+            'BaseModel.from_dataframe and VectorContainer.to_dataframe by a differential check (extracted OCaml) and the statement is '
+            'evaluated directly on pandas objects (oracle).',
+            'Partial in one respect: pandas/NumPy coercions (pd_infer, pd_index, pd_of_series, np_cast) are modelled as tables validated only '
+            'by the correspondence against pandas 3.0.5 / NumPy 2.5.3, not verified. Trusted: Coq kernel, extraction (ExtrOcamlBasic, '
+            'ExtrOcamlString) + OCaml driver, gen_constants.py (type enum). Outside the model: MultiIndex/TimedeltaIndex spans, use_aliases '
+            '(C18), non-Latin-1 text.', 'DESIGN.md §3 C19, §7.3'),
 }
 PENDING = 'check not built yet in this session (model and theorems planned in DESIGN.md §3); not claimed until its check runs green'
 
